@@ -216,3 +216,10 @@ def rules(t):
     out = _rules_c15_w5c(t)
     out.append(W5.slice_scan_all(t, "C15.l"))
     return out
+
+_rules_C15_w5d = rules
+def rules(t, *a, **kw):
+    import rules.wave5 as W5
+    out = _rules_C15_w5d(t, *a, **kw)
+    out.append(W5.last_sent_values(t, "C15.m"))
+    return out
